@@ -108,7 +108,7 @@ class TlcResult:
 
 
 def _java_cmd(xmx, xss, dfs, extra_props=()):
-    cmd = ["java", "-XX:+UseParallelGC", "-Xmx" + xmx, "-Xss" + xss, "-DTLA-Library=" + LIBPATH]
+    cmd = ["java", "-XX:+UseParallelGC", "-XX:ParallelGCThreads=2", "-Xmx" + xmx, "-Xss" + xss, "-DTLA-Library=" + LIBPATH]
     if dfs:
         cmd.append("-Dtlc2.tool.queue.IStateQueue=StateDeque")
     cmd += list(extra_props)
